@@ -6,7 +6,7 @@ from .common import fold
 
 
 def table_flow(run, module, cfg, key, test, trace_module, prefixes, constants=None, shards=4, sample_key=None,
-               extra_cases=None, race=False, timeout=3000, workers=4, env=None, sig_fn=None):
+               extra_cases=None, race=False, timeout=3000, workers=4, env=None, sig_fn=None, derive=None):
     """decision-table pattern: TLC checks the table, every case is executed by harness/p2ph <test>, the
     recorded observations are judged by <trace_module> (property layer in TLA+)."""
     pid = run.pid
@@ -14,6 +14,8 @@ def table_flow(run, module, cfg, key, test, trace_module, prefixes, constants=No
     vlib.require_tlc_ok(res, "%s %s" % (module, cfg))
     run.add_tlc("%s (%s): decision table" % (module, cfg), res)
     cases = res.exported + (extra_cases or [])
+    if derive:
+        cases = cases + derive(res.exported)      # replay-only variants of the table's rows (same prediction)
     for i, c in enumerate(cases):
         c["id"] = i
     return cases, judge(run, cases, test, trace_module, prefixes, shards=shards, env=env, sig_fn=sig_fn)
@@ -121,7 +123,17 @@ def c10(run):
 
 @register("C11")
 def c11(run):
-    cases, _ = table_flow(run, "Subscriber", "Subscriber.cfg", "C11", "TestSubscriber", "SubscriberTrace", ["C11_"], shards=2)
+    def with_metrics(rows):
+        import copy
+        out = []
+        for c in rows:
+            if c["in"]["verifier"] != "notset":
+                c2 = copy.deepcopy(c)
+                c2["in"]["metrics"] = True
+                out.append(c2)
+        return out
+    cases, _ = table_flow(run, "Subscriber", "Subscriber.cfg", "C11", "TestSubscriber", "SubscriberTrace", ["C11_"], shards=2,
+                          derive=with_metrics)
     for c in cases[:3]:
         run.sample({"in": c["in"], "predicted": c["predicted"]})
     run.cov["exhaustive"] = True
@@ -147,6 +159,16 @@ def c13(run):
         one = [c for c in cases if len(c["in"]["ans"]) == 1]
         rest = [c for c in cases if len(c["in"]["ans"]) > 1]
         cases = one + rnd.sample(rest, cap_ - len(one))
+    # replay-only variant (same prediction): the client does not pin a chain id; rows whose answers all name the right chain
+    import copy
+    nopin = []
+    for c in cases:
+        if not set(c["in"]["ans"]) & {"wrongchain", "nochain"} and rnd.random() < (0.3 if quick else 1.0):
+            c2 = copy.deepcopy(c)
+            c2["in"]["nopin"] = True
+            nopin.append(c2)
+    cases = cases + nopin
+    run.cov["nopin_variants"] = len(nopin)
     for i, c in enumerate(cases):
         c["id"] = i
     run.cov["rows_total"], run.cov["rows_executed"] = total, len(cases)
@@ -222,7 +244,7 @@ def c09(run):
 
 
 BYZ = ["prefix", "prefixStall", "notfound", "empty", "shifted", "dup", "reordered", "forged", "forgedFirst", "wrongchain", "invalid",
-       "malformed", "unknownStatus", "tooMany", "disconnect"]
+       "malformed", "unknownStatus", "tooMany", "disconnect", "decodePanic"]
 
 
 def exchange_design(run, combos, byz):
@@ -321,6 +343,21 @@ def c18(run):
                         continue
                     cases.append({"from": 1, "amount": amount, "chunk": chunk, "mode": "honest",
                                   "peers": [{"script": f, "avail": avail}, {"script": []}]})
+    # a peer that faulted once (benign) stays usable: after the first call the never-faulting peers leave for good and the
+    # same range is asked again from the one that is left
+    for chunk in (2, 3):
+        for amount in (1, 2, 5):
+            for f in faults[1:]:
+                cases.append({"from": 1, "amount": amount, "chunk": chunk, "mode": "honest", "soloSecond": True,
+                              "peers": [{"script": f, "avail": 1 + amount + chunk + 4}, {"script": []}]})
+    # the connection to the capable peer is lost while a lagging peer answers: it is queued in the session but disconnected
+    # (one sub-request only: mocknet has no deadlines, so a connection must not be closed under a stream that is in use)
+    for chunk in (2, 3, 4):
+        for amount in range(1, chunk + 1):
+            for npeers in (2, 3):
+                peers = [{"script": ["dropOthers", "dropOthers"], "avail": 1}] + [{"script": []} for _ in range(npeers - 1)]
+                rnd.shuffle(peers)
+                cases.append({"from": 1, "amount": amount, "chunk": chunk, "mode": "honest", "peers": peers})
     n_rand = 120 if quick else 6000
     for _ in range(n_rand):
         chunk = rnd.choice([1, 2, 3, 5, 8, 16, 64])
